@@ -1558,6 +1558,23 @@ class Engine:
             st.ghost[idx_name] = vint(0)
         if source is not None and source[0] == "iter":
             st.ghost[idx_name] = vint(0)
+        def prefix_axiom(stt, which, idx_term=None):
+            """R6: unfolding instances of in_prefix for the sequence being iterated."""
+            if source is None or source[0] != "seq" or source[1].t is None:
+                return
+            from .speceval import in_prefix_fn
+            sq = source[1]
+            es = sort_of(sq.ty.args[0])
+            f = in_prefix_fn(es)
+            kq = z3.Const("k!pfx", es)
+            if which == "zero":
+                stt.assume(z3.ForAll([kq], z3.Not(f(sq.t, z3.IntVal(0), kq))))
+            elif which == "step":
+                stt.assume(z3.ForAll([kq], f(sq.t, idx_term + 1, kq) == z3.Or(f(sq.t, idx_term, kq), sq.t[idx_term] == kq)))
+            elif which == "full":
+                stt.assume(z3.ForAll([kq], f(sq.t, z3.Length(sq.t), kq) == z3.Contains(sq.t, z3.Unit(kq))))
+
+        prefix_axiom(st, "zero")
         # 1. invariant holds on entry
         se = SpecEval(st, self.spec_env(st), self.old0, self.penv0, self)
         for cl in ls["inv"]:
@@ -1602,6 +1619,7 @@ class Engine:
         def close_iteration(st_end):
             """invariant preserved + variant decreases; path is then cut."""
             if source is not None:
+                prefix_axiom(st_end, "step", st_end.ghost[idx_name].t)
                 st_end.ghost[idx_name] = V(INT, st_end.ghost[idx_name].t + 1)
             se2 = SpecEval(st_end, self.spec_env(st_end), self.old0, self.penv0, self)
             for cl in ls["inv"]:
@@ -1649,6 +1667,8 @@ class Engine:
                         else:
                             yield from run_body(st3)
                 else:
+                    st2.assume(i.t == self.seq_len(seqv))
+                    prefix_axiom(st2, "full")
                     yield from self.ex(s.orelse, st2)
         else:
             # opaque iterator under a callable spec "next item or stop"
